@@ -372,10 +372,98 @@ fn draw_json(areas: &[[i32; 4]], mode: i64, at: (i32, i32)) -> Value {
 
 const BPPS: [i64; 7] = [1, 2, 4, 8, 16, 24, 32];
 
+/// "@deep" run (dev-profile build): images that are very long in one direction and degenerate or one pixel wide in the
+/// other, drawn on a target that drains the colour stream; the stack every draw uses is measured. A colour stream
+/// that needs stack per (empty) row or column overflows a real stack for tall images.
+struct Pull<C> {
+    n: u64,
+    calls: u32,
+    _c: std::marker::PhantomData<C>,
+}
+impl<C: PixelColor> Dimensions for Pull<C> {
+    fn bounding_box(&self) -> Rectangle {
+        Rectangle::new(Point::new(-1_000_000, -1_000_000), Size::new(3_000_000, 3_000_000))
+    }
+}
+impl<C: PixelColor> DrawTarget for Pull<C> {
+    type Color = C;
+    type Error = core::convert::Infallible;
+    fn draw_iter<I: IntoIterator<Item = Pixel<C>>>(&mut self, px: I) -> Result<(), Self::Error> {
+        self.calls += 1;
+        self.n += px.into_iter().count() as u64;
+        Ok(())
+    }
+    fn fill_contiguous<I: IntoIterator<Item = C>>(&mut self, _area: &Rectangle, colors: I) -> Result<(), Self::Error> {
+        self.calls += 1;
+        for _ in colors {
+            self.n += 1;
+        }
+        Ok(())
+    }
+}
+fn deep_cases() -> Vec<Value> {
+    let mut v = vec![];
+    for (bpp, w, h) in [(1i64, 0u32, 200_000u32), (8, 0, 120_000), (24, 0, 65_536), (16, 200_000, 0), (1, 1, 100_000), (8, 100_000, 1), (32, 0, 150_000)] {
+        v.push(json!({"k": "deep", "bpp": bpp, "w": w, "h": h}));
+    }
+    v
+}
+fn run_deep(rec: &mut Rec, d: &Value) {
+    rec.begin(d.clone());
+    let (bpp, w, h) = (i(&d["bpp"]), i(&d["w"]) as u32, i(&d["h"]) as u32);
+    let len = ((w as usize * bpp as usize + 7) / 8) * h as usize;
+    let data: Vec<u8> = (0..len).map(|j| (j * 29 + 3) as u8).collect();
+    let r = egv::stackprobe::in_deep_thread(|| {
+        catch(|| {
+            macro_rules! go {
+                ($ct:ty) => {{
+                    let img = ImageRaw::<$ct>::new(&data, Size::new(w, h)).unwrap();
+                    let mut out = vec![];
+                    // the whole image, and its lower / right half as a sub-image
+                    let ((), s1) = egv::stackprobe::measure(|| {
+                        let mut t = Pull::<$ct> { n: 0, calls: 0, _c: std::marker::PhantomData };
+                        Image::new(&img, Point::new(3, -4)).draw(&mut t).unwrap();
+                        out.push(t.n);
+                    });
+                    let ((), s2) = egv::stackprobe::measure(|| {
+                        let mut t = Pull::<$ct> { n: 0, calls: 0, _c: std::marker::PhantomData };
+                        let sub = img.sub_image(&Rectangle::new(Point::new(0, (h / 2) as i32), Size::new(w.max(1), h)));
+                        Image::new(&sub, Point::zero()).draw(&mut t).unwrap();
+                        out.push(t.n);
+                    });
+                    (out, s1.max(s2))
+                }};
+            }
+            match bpp {
+                1 => go!(BinaryColor),
+                8 => go!(Gray8),
+                16 => go!(Rgb565),
+                24 => go!(Rgb888),
+                _ => go!(Rgb888),
+            }
+        })
+    });
+    match r {
+        Ok((n, stack)) => {
+            rec.nontrivial();
+            // colour counts split into 16-bit halves would be overkill: w * h <= 200 000 here
+            rec.ev("deep", json!({"bpp": bpp, "w": w, "h": h, "n": n, "stack": stack}));
+        }
+        Err(p) => rec.ev("panic", json!({"msg": p.msg, "loc": p.loc})),
+    }
+}
+
 fn main() {
     let args = Args::parse();
     install_panic_hook();
     let mut rec = Rec::new(&args);
+    if args.tier == "deep" {
+        for d in args.cases.clone().unwrap_or_else(deep_cases) {
+            run_deep(&mut rec, &d);
+        }
+        rec.finish(json!({}));
+        return;
+    }
     let mut rng = Rng::new(args.seed ^ 0xC09);
     if let Some(cases) = &args.cases {
         for d in cases {
